@@ -112,7 +112,27 @@ func remaining(srv *memsql.Server) []string {
 
 var last struct{ deleted, kept int }
 
+var caseNo int64
+
+// perCase makes the (xid, branch id) pairs of a case unique in the process: a commit worker of an earlier
+// case may still carry out a deletion (the process-wide worker flushes once a second), and it must not be
+// able to name a row of a later case. The suffix keeps the xids of one case distinct and prefix-related.
+func perCase(c Case) Case {
+	n := atomic.AddInt64(&caseNo, 1)
+	out := c
+	out.Rows = append([]Pair(nil), c.Rows...)
+	out.Requests = append([]Pair(nil), c.Requests...)
+	for i := range out.Rows {
+		out.Rows[i].Xid += fmt.Sprintf("%06d", n)
+	}
+	for i := range out.Requests {
+		out.Requests[i].Xid += fmt.Sprintf("%06d", n)
+	}
+	return out
+}
+
 func runCase(c Case) *pt.Failure {
+	c = perCase(c)
 	return pt.Guard("C11/crash", func() *pt.Failure {
 		env.ResetCase()
 		env.CleanUndo()
